@@ -101,6 +101,8 @@ type verifC06API struct {
 	failKind string
 	nreq     int
 	trace    []string
+	budget   int  // more collections requests than this = the scan is not terminating
+	runaway  bool
 }
 
 func (api *verifC06API) apply(op verifC06Op) {
@@ -219,6 +221,10 @@ func (api *verifC06API) RoundTrip(req *http.Request) (*http.Response, error) {
 	}
 	k := api.nreq
 	api.nreq++
+	if k >= api.budget {
+		api.runaway = true
+		return nil, errors.New("verif: request budget exceeded")
+	}
 	for _, op := range api.sched[k] {
 		api.apply(op)
 	}
@@ -410,8 +416,19 @@ func verifC06Page(f []string) string {
 		}
 		cbFail = n
 	}
+	// C06_paging_progress: at most K + 3*|table| + 3 page requests once the table is constant from
+	// request K on (+ the two count requests); anything beyond a generous multiple of that is reported
+	// as a scan that does not terminate.
+	nops, maxk := 0, 0
+	for k, ops := range api.sched {
+		nops += len(ops)
+		if k > maxk {
+			maxk = k
+		}
+	}
+	api.budget = maxk + 4*(len(api.rows)+nops) + 16
 	client := &arvados.Client{APIHost: "zzzzz.arvadosapi.com", AuthToken: "xyzzy", Client: &http.Client{Transport: api}}
-	ctx, cancel := context.WithTimeout(context.Background(), 20*time.Second)
+	ctx, cancel := context.WithTimeout(context.Background(), 60*time.Second)
 	defer cancel()
 	calls := 0
 	err := EachCollection(ctx, client, pageSize, func(c arvados.Collection) error {
@@ -427,6 +444,8 @@ func verifC06Page(f []string) string {
 	out := "ok"
 	switch {
 	case err == nil:
+	case api.runaway:
+		out = "runaway"
 	case err == verifC06ErrCallback:
 		out = "err-callback"
 	case ctx.Err() != nil:
